@@ -61,6 +61,8 @@ def observe(doc):
 TITLE_WORDS = ["Stew", "Bread", "for", "to", "serve", "serves", "makes", "make", "serving", "2", "10", "Food", "&", "drink", "FOR", "To", "SERVES",
                "forty", "before", "x", "03", "for2", "Tom's", "100%", "<b>", "\"q\"", "café", "Serve", "MAKES", "a_b", "*em*", "`code`",
                "\\#1", "Fish \\& chips", "a\\*b"]
+PLAIN_TITLE_WORDS = {"Stew", "Bread", "for", "to", "serve", "serves", "makes", "make", "serving", "2", "10", "Food", "&", "drink", "FOR", "To", "SERVES",
+                     "forty", "before", "x", "03", "for2", "Tom's", "100%", "\"q\"", "café", "Serve", "MAKES", "a_b", "\\#1", "Fish \\& chips", "a\\*b"}
 PHRASES = ["to serve", "to make", "serves", "for", "makes", "serving", "serve", "to serves", "To Serve", "FOR", "Makes", "to  serve", "to\tmake"]
 PROSE = ["Some text.", "Mix {2} eggs with {1/2} cup of milk.", "Plain *emphasis* and `code {3}` span.", "A line with 50% and #hash & <b>raw</b> html.",
          "Use {1 1/2} tsp \\{not scaled\\} of salt{}.", "Escaped \\{ brace and {0.5} litres.", "Line one\nline two {3} continues.",
@@ -104,7 +106,8 @@ def gen_heading(rng, doc, level=None, force_servings=None):
         lines = ["#" * level + " " + title + rng.choice(["", "", " #", "  "])]
     if not doc.first_heading_seen:
         doc.first_heading_seen = True
-        doc.title = dict(level=level, text=title, phrase=phrase, n=n)
+        plain = all(w in PLAIN_TITLE_WORDS for w in words)
+        doc.title = dict(level=level, text=title, phrase=phrase, n=n, plain=plain, first=(len(doc.lines) == 0))
     doc.add(lines + [""])
 
 
